@@ -96,6 +96,16 @@ fn main() {
                 Err(e) => println!("err\t{}", format!("{e:#}").replace('\n', " ")),
             }
         }
+        "astparse" => {
+            // the generated parser itself (PegParser::parse, what the command line tool and bootstrap.sh use), not the
+            // FromStr wrapper around it: both are "the front end" and must read every text alike
+            use peginator::PegParser;
+            let text = std::fs::read_to_string(&args[2]).expect("read grammar");
+            match Grammar::parse(&text) {
+                Ok(g) => println!("{:?}", g),
+                Err(e) => println!("error\t{}\t{:?}", e.position, e.specifics),
+            }
+        }
         "ast" => {
             let text = std::fs::read_to_string(&args[2]).expect("read grammar");
             match Grammar::from_str(&text) {
